@@ -8,21 +8,22 @@
 use vstd::prelude::*;
 use std::collections::{HashMap, HashSet, VecDeque};   // the std collections a change to the extracted code may reach for
 verus! {
+pub mod trusted {
+    use vstd::prelude::*;
+    use vstd::std_specs::hash::*;
+    #[verifier::external_body]
+    pub broadcast proof fn axiom_uid_key_model() ensures #[trigger] obeys_key_model::<[u8; 16]>() {}
+}
+broadcast use {vstd::std_specs::hash::group_hash_axioms, trusted::axiom_uid_key_model};
 pub type Uid = [u8; 16];
 pub mod crate_error { pub enum Error { Other() } }
 use crate_error::Error;
-pub struct SetGuard { x: u8 }
-impl SetGuard {
-    #[verifier::external_body]
-    pub fn insert(&mut self, room: Uid) -> (r: bool) { unimplemented!() }
-    #[verifier::external_body]
-    pub fn remove(&mut self, room: &Uid) -> (r: bool) { unimplemented!() }
-}
-/// Arc<Mutex<HashSet<Uid>>>: the rooms this connection currently holds (opaque: consulted only when the connection ends)
+/// Arc<Mutex<HashSet<Uid>>>: the rooms this connection currently holds.  `lock()` hands out the set behind the mutex: ANY set
+/// (other tasks of the connection change it between two locks), with std's HashSet operations on it (vstd specifications)
 pub struct AcquiredSet { x: u8 }
 impl AcquiredSet {
     #[verifier::external_body]
-    pub async fn lock(&self) -> (r: SetGuard) { unimplemented!() }
+    pub async fn lock(&self) -> (r: Box<HashSet<Uid>>) { unimplemented!() }
 }
 pub struct QueryService { x: u8 }
 pub struct PeerConnectionService { x: u8 }
